@@ -30,7 +30,9 @@ PROPS = {
         "rule": "rapid-generated deterministic programs with dataflow expressions in input / wait_for / deploy / enabled / foreach items; "
                 "oracle over the plugin event log up to the run's shutdown: every logged plugin input and deploy tag equals the reference "
                 "evaluation of the step's expressions over what producers logged as emitted, and every required producer logged exec-end "
-                "before the consumer's exec-start. non-trivial = >=1 executed consumer with a step-output dependency",
+                "before the consumer's exec-start; a run error 'cannot resolve expressions for steps.X' is a violation too (the profile draws no "
+                "expression that can fail over produced data, so the engine built a stage input before its data existed). Expressions include "
+                "binary operators over two references. non-trivial = >=1 executed consumer with a step-output dependency",
         "quick": {"cases": 3600, "shards": 12, "shrinktime": "30s"},
         "thorough": {"cases": 80000, "shards": 16, "shrinktime": "120s", "timeout_s": 3300},
         "assumptions": RUN_ASSUME + ["events after the run began shutting down (schedule point at the entry of terminateAllSteps) are not judged"],
@@ -38,7 +40,9 @@ PROPS = {
     "C04": {
         "test": "TestC04", "binary": "sched", "level": "exploration",
         "rule": "rapid-generated deterministic programs with failing / crashing / disabled / deploy-failing steps at every position; "
-                "in a third of the cases the stop-before-start motif (S waits for X and stops if Y; Z needs Y; X can finish only after Z started). "
+                "in a third of the cases the stop-before-start motif (S waits for X - in its starting, enabling or deploy stage - and stops if Y; Z needs Y; "
+                "X can finish only after Z started), in a twelfth its late-receiver variant (S's goroutine is delayed in front of its blocking receive so that "
+                "stop and input are both pending, finding K31). "
                 "oracle: the set of plugin executions logged before shutdown is a subset of the reference's may-run set; in the motif S never "
                 "executes. non-trivial = >=1 step that must not run",
         "quick": {"cases": 3600, "shards": 12, "shrinktime": "30s"},
@@ -48,7 +52,8 @@ PROPS = {
     "C07": {
         "test": "TestC07", "binary": "plain", "level": "exploration",
         "rule": "rapid-generated programs with faulting leaves (omitted optional referenced, list index out of range, stringToInt of non-numbers, "
-                "integer / and % by 0..2, arithmetic and functions on plugin integers, references into crashed.error / deploy_failed.error) and "
+                "integer / and % by 0..2, arithmetic and functions on plugin integers, references into crashed.error / deploy_failed.error; the same "
+                "computed expressions also under !wait-optional tags) and "
                 "misbehaving steps (crash, schema-violating output, undeclared output id, schema mismatch, write-refusing connection); each case runs "
                 "in a worker process; oracle = the worker neither dies nor reports a recovered panic and answers; a returned output must not be one "
                 "whose expression the reference evaluates to a fault. non-trivial = reference predicts >=1 fault or >=1 misbehaving step",
@@ -61,7 +66,9 @@ PROPS = {
         "rule": "rapid-generated deterministic programs that reference every engine-generated stage output (plugin: deploy_failed.error, "
                 "enabling.resolved, starting.started, disabled.output, crashed.error, closed.result; foreach: outputs.success, failed.error, "
                 "enabling.resolved) by field and as a whole from step inputs and workflow outputs, with the outcome vector that produces each, "
-                "incl. failing foreach items; oracle = no returned error contains 'bug:', the returned data unserializes with OutputSchema()[id] "
+                "incl. failing foreach items (crash, schema-violating output, declared error output of the sub-workflow, undeclared outcome); in half of the "
+                "cases every output additionally carries, wait-optionally, the terminal stage outputs of every step so that their data passes the output "
+                "schema; oracle = no returned error contains 'bug:', the returned data unserializes with OutputSchema()[id] "
                 "(checked by the harness in the worker, independently of the engine's own check) and equals the reference's expected shape. "
                 "non-trivial = the case references an engine-generated output or a foreach step",
         "quick": {"cases": 3600, "shards": 12, "shrinktime": "30s"},
@@ -106,7 +113,7 @@ PROPS = {
     "C11": {
         "test": "TestC11", "binary": "plain", "level": "exploration",
         "rule": "cases drive engine.New/Parse/Run on real files in a scratch directory: (a) structural corruption of generated valid workflows "
-                "(main or sub-workflow file): a generated node position (key or value) x one of 63 operations (59 replacement shapes incl. "
+                "(main or sub-workflow file): a generated node position (key or value) x one of 70 operations (67 replacement shapes incl. self-containing / mutually containing anchors, alias fan-out, undefined aliases, "
                 "non-scalar keys, anchors/aliases, merge keys, every engine tag on every node kind, odd expressions; delete; duplicate; 200-deep "
                 "nest); (b) 1-4 byte-level mutations of a valid workflow; (c) random text over a YAML-ish alphabet; (d) file trees of foreach "
                 "references (chains, shared, missing, self, mutual, nested directories, .., absolute, empty, garbage, non-string kind/workflow) with "
@@ -123,7 +130,8 @@ PROPS = {
         "rule": "generated input schemas (1-5 fields: int/string with bounds, bool, float, list, map, nested objects two levels deep, optional "
                 "fields with defaults) with documents that are valid (optionals omitted, values given typed or - via the YAML decoding path of "
                 "engine.Workflow.Run - as strings) or invalid by exactly one mutation (missing required, wrong type, bound violation, unknown field, "
-                "nested wrong type / unknown field); programs whose 1-4 steps and output consume the fields. oracle: invalid => Execute errors and "
+                "nested wrong type / unknown field); programs whose 1-4 steps and output consume the fields; 0-3 other valid documents are executed on the same prepared workflow "
+                "before the observed run. oracle: invalid => Execute errors and "
                 "the scripted deployer saw no run-phase activity at all; valid => every logged plugin input and the returned output equal the "
                 "harness's own normalisation of the document. non-trivial = invalid document, or schema with a default or nested object",
         "quick": {"cases": 3600, "shards": 12, "shrinktime": "30s"},
@@ -161,8 +169,9 @@ PROPS = {
         "rule": "generated loops: item lists of length 0, 1-12 or 20-40, parallelism 1-8 (literal, from the workflow input, or the default), "
                 "sub-workflows of four shapes (single step, two-step chain, two declared outputs success/error, nested loop), per-item outcome "
                 "(success / crash / schema-violating output / declared error output) and duration (items finish out of order), items gated on the "
-                "concurrency level so that min(parallelism, n) items must overlap, and in a quarter of the cases a cancellation while items are in "
-                "flight. oracle: concurrent-execution high-water mark of the loop's plugin <= parallelism (and == min(parallelism, n) when overlap is "
+                "concurrency level so that min(parallelism, n) items must overlap, in a quarter of the cases a cancellation while items are in "
+                "flight, and in a third a delay (2-25 ms; all hits, the first k, or the k-th) at one schedule point of the loop provider's item "
+                "handling. oracle: concurrent-execution high-water mark of the loop's plugin <= parallelism (and == min(parallelism, n) when overlap is "
                 "forced); result equals the reference (success: list of per-item reference outputs in item order; failure: exactly the failing "
                 "indexes with a message each, and the others' results); cancelled loops: error, or a consistent partition of the items. "
                 "non-trivial = >=2 items, a failing item, or parallelism < n",
@@ -175,7 +184,9 @@ PROPS = {
         "rule": "tag-heavy generated programs: trees of !wait-optional / !soft-optional / !oneof / !ordisabled placed in step `any` inputs and "
                 "workflow outputs, nested in maps and lists, several per object, one-of options that themselves contain tags; sources with every "
                 "outcome (success / error / alt / crash / schema-violating output / disabled / deployment failure) and generated delays; in a third of "
-                "the cases the soft-optional motif (the source can finish only after the consumer started). oracle: logged consumer inputs and the "
+                "the cases the soft-optional motif (the source can finish only after the consumer started); in a twelfth the cancellation motif (an output "
+                "made of wait-optional fields, the caller cancels while a source is busy: once every source is over the output must be delivered, an "
+                "'execution aborted' error after the grace period is a violation). oracle: logged consumer inputs and the "
                 "returned output equal the reference (wait-optional present iff produced, soft-optional absent-or-equal, one-of = data of a produced "
                 "option + discriminator, or-disabled = result or disabled message); a wait-optional consumer starts only after its source's "
                 "execution ended; in the motif the consumer starts before the source ends. non-trivial = a tag whose source did not succeed, "
